@@ -30,6 +30,7 @@ from .. import gen, proj
 from .c04 import tern_to_km, km_intersect
 
 KW = 10     # active key bits
+OWN_CORES, OWN_SDRAM, OWN_SRAM = "processor", "dram", "sram-bytes"      # a caller's own resource identifiers
 
 
 def bits(s):
@@ -195,7 +196,7 @@ GUARDS = (InsufficientResourceError, InvalidConstraintError, MachineHasDisconnec
           MinimisationFailedError, MultisourceRouteError)
 
 
-def expected_of(nets, placements, allocations, cons):
+def expected_of(nets, placements, allocations, cons, core=Cores):
     endpoints = {c.vertex: c.route for c in cons if isinstance(c, RouteEndpointConstraint)}
     out = []
     for n in nets:
@@ -208,8 +209,8 @@ def expected_of(nets, placements, allocations, cons):
                     exits.add((x, y, int(r)))
                 else:
                     cores.add((x, y, int(r) - 6))
-            elif Cores in allocations.get(s, {}):
-                sl = allocations[s][Cores]
+            elif core in allocations.get(s, {}):
+                sl = allocations[s][core]
                 for c in range(sl.start, sl.stop):
                     cores.add((x, y, c))
         sx, sy = placements[n.source]
@@ -217,18 +218,25 @@ def expected_of(nets, placements, allocations, cons):
     return out
 
 
-def make_trace(chk, rng, machine, nets, net_keys, placements, allocations, cons, tables, label):
+def make_trace(chk, rng, machine, nets, net_keys, placements, allocations, cons, tables, label, core=Cores):
     tr = proj.machine_json(machine)
     tr["kw"] = KW
     tr["label"] = label
     tr["tables"] = [[x, y, [enc_entry(e) for e in t]] for (x, y), t in sorted(tables.items())]
-    tr["nets"] = expected_of(nets, placements, allocations, cons)
+    tr["nets"] = expected_of(nets, placements, allocations, cons, core)
     evs = []
     for i, n in enumerate(nets):
         for k in matching_keys(rng, net_keys[n], chk.pick(1, 4)):
             evs.append(["inject", i + 1, k])
     evs.append(["done"])
     tr["ev"] = evs
+    return tr
+
+
+def failure_trace(machine, label, ex):
+    """the pipeline ended with an exception that is not one of the documented ways to fail"""
+    tr = proj.machine_json(machine)
+    tr.update(kw=KW, label=label, tables=[], nets=[], ev=[["raise", type(ex).__name__], ["done"]])
     return tr
 
 
@@ -263,6 +271,9 @@ def run(chk):
         except GUARDS as ex:
             ended[type(ex).__name__] = ended.get(type(ex).__name__, 0) + 1
             continue
+        except Exception as ex:                  # judged by the specification (OnlyDocumentedErrors)
+            traces.append(failure_trace(m, "hand %s r=%d" % (pname, radius), ex))
+            continue
         for mname, methods in MINIMISERS:
             n_max = max([len(t) for t in tables0.values()] or [0])
             for tgt in ([None] if methods is None else [None, rng.choice((0, max(1, n_max // 2), n_max, 1023))]):
@@ -271,6 +282,9 @@ def run(chk):
                     tables = tables0 if methods is None else minimise_tables(tables0, tgt, methods)
                 except GUARDS as ex:
                     ended[type(ex).__name__] = ended.get(type(ex).__name__, 0) + 1
+                    continue
+                except Exception as ex:
+                    traces.append(failure_trace(m, label, ex))
                     continue
                 traces.append(make_trace(chk, rng, m, nets, net_keys, placements, allocations, cons, tables, label))
                 chk.note_case((label, traces[-1]["tables"], traces[-1]["nets"]),
@@ -287,31 +301,52 @@ def run(chk):
             si = system_info_of(m, busy_all)
             apps = {v: "app.aplx" for v in vr}
             wcons = [c for c in cons if not isinstance(c, ReserveResourceConstraint)]
+            # the wrappers let the caller name the resources; every second call uses names of its own
+            own = i % 6 == 0
+            names = {Cores: OWN_CORES, SDRAM: OWN_SDRAM, SRAM: OWN_SRAM} if own else {}
+            wvr = {v: {names.get(r, r): q for r, q in res.items()} for v, res in vr.items()}
+            wkw = dict(core_resource=OWN_CORES, sdram_resource=OWN_SDRAM, sram_resource=OWN_SRAM) if own else {}
+            wcore = OWN_CORES if own else Cores
             try:
                 random.seed(rs)
-                pl, al, amap, tabs = place_and_route_wrapper(vr, apps, nets, net_keys, si, wcons,
-                                                             route_kwargs=dict(radius=radius), **pk(rs))
+                pl, al, amap, tabs = place_and_route_wrapper(wvr, apps, nets, net_keys, si, wcons,
+                                                             route_kwargs=dict(radius=radius), **dict(pk(rs), **wkw))
                 m2 = Machine(m.width, m.height, chip_resources=dict(m.chip_resources),
                              chip_resource_exceptions=dict(m.chip_resource_exceptions),
                              dead_chips=set(m.dead_chips), dead_links=set(m.dead_links))
                 traces.append(make_trace(chk, rng, m2, nets, net_keys, pl, al, wcons, tabs,
-                                         "place_and_route_wrapper %s r=%d" % (pname, radius)))
+                                         "place_and_route_wrapper %s r=%d%s" % (pname, radius, " own resource names" if own else ""),
+                                         core=wcore))
                 chk.note_case(("wrapper", traces[-1]["tables"], traces[-1]["nets"]))
                 # busy cores must not be used by any vertex
                 traces[-1]["busy"] = [[x, y, sorted(b)] for (x, y), b in sorted(busy_all.items())]
             except GUARDS as ex:
                 ended[type(ex).__name__] = ended.get(type(ex).__name__, 0) + 1
+            except Exception as ex:
+                traces.append(failure_trace(m, "place_and_route_wrapper %s r=%d" % (pname, radius), ex))
             try:
                 with warnings.catch_warnings():
                     warnings.simplefilter("ignore")
                     random.seed(rs)
-                    pl, al, amap, tabs = old_wrapper(vr, apps, nets, net_keys, m, wcons,
-                                                     route_kwargs=dict(radius=radius), **pk(rs))
+                    if own:
+                        mo = Machine(m.width, m.height,
+                                     chip_resources={names.get(r, r): q for r, q in m.chip_resources.items()},
+                                     chip_resource_exceptions={xy: {names.get(r, r): q for r, q in res.items()}
+                                                               for xy, res in m.chip_resource_exceptions.items()},
+                                     dead_chips=set(m.dead_chips), dead_links=set(m.dead_links))
+                        okw = dict(core_resource=OWN_CORES, sdram_resource=OWN_SDRAM)
+                    else:
+                        mo, okw = m, {}
+                    pl, al, amap, tabs = old_wrapper(wvr, apps, nets, net_keys, mo, wcons,
+                                                     route_kwargs=dict(radius=radius), **dict(pk(rs), **okw))
                 traces.append(make_trace(chk, rng, m, nets, net_keys, pl, al, wcons, tabs,
-                                         "deprecated wrapper %s r=%d" % (pname, radius)))
+                                         "deprecated wrapper %s r=%d%s" % (pname, radius, " own resource names" if own else ""),
+                                         core=wcore))
                 chk.note_case(("old-wrapper", traces[-1]["tables"], traces[-1]["nets"]))
             except GUARDS as ex:
                 ended[type(ex).__name__] = ended.get(type(ex).__name__, 0) + 1
+            except Exception as ex:
+                traces.append(failure_trace(m, "deprecated wrapper %s r=%d" % (pname, radius), ex))
     for k, v in ended.items():
         chk.count("pipeline runs ended by %s (no verdict: the documented way to fail)" % k, v)
     chk.count("packets injected", sum(len(t["ev"]) - 1 for t in traces))
